@@ -112,6 +112,7 @@ func init() {
 		"strings.Trim":                         extStringsTrim,
 		"strings.TrimLeft":                     extStringsTrim,
 		"strings.TrimRight":                    extStringsTrim,
+		"strings.TrimSpace":                    extStringsTrimSpace,
 		"internal/stringslite.Index":           extIndexString,
 		"internal/stringslite.IndexByte":       extIndexByte,
 		"strings.IndexByte":                    extIndexByte,
@@ -644,6 +645,66 @@ func extStringsTrim(fr *frame, a []value) value {
 		for hi > lo && p.truth(inCut(strAt(s, hi-1))) {
 			hi--
 		}
+	}
+	return strSlice(s, lo, hi)
+}
+
+// extStringsTrimSpace: ASCII white space is trimmed byte-wise (one fork per
+// boundary byte instead of the real code's table lookup per value); the
+// two-byte spaces U+0085 and U+00A0 (C2 85, C2 A0) are handled; a boundary
+// byte that may start a three-byte space (E1, E2, E3) is declined.
+func extStringsTrimSpace(fr *frame, a []value) value {
+	s := a[0]
+	if c, ok := s.(string); ok {
+		return strings.TrimSpace(c)
+	}
+	p := fr.p
+	tt := p.tt
+	isASCIISpace := func(b value) value {
+		t := p.toTerm(b)
+		in := tt.Or(tt.And(tt.Cmp(OpUle, tt.BV(9, 8), t), tt.Cmp(OpUle, t, tt.BV(13, 8))), tt.Eq(t, tt.BV(' ', 8)))
+		return p.fromBoolTerm(in)
+	}
+	isLead3 := func(b value) value {
+		t := p.toTerm(b)
+		return p.fromBoolTerm(tt.And(tt.Cmp(OpUle, tt.BV(0xe1, 8), t), tt.Cmp(OpUle, t, tt.BV(0xe3, 8))))
+	}
+	eq := func(b value, c byte) value { return p.byteEq(b, c) }
+	lo, hi := 0, strLen(s)
+	for lo < hi {
+		b := strAt(s, lo)
+		if p.truth(isASCIISpace(b)) {
+			lo++
+			continue
+		}
+		if p.truth(isLead3(b)) {
+			panic(unsupported("strings.TrimSpace: possible three-byte space at the boundary"))
+		}
+		if lo+1 < hi && p.truth(eq(b, 0xc2)) && p.truth(p.orv(eq(strAt(s, lo+1), 0x85), eq(strAt(s, lo+1), 0xa0))) {
+			lo += 2
+			continue
+		}
+		break
+	}
+	for hi > lo {
+		b := strAt(s, hi-1)
+		if p.truth(isASCIISpace(b)) {
+			hi--
+			continue
+		}
+		// a trailing continuation byte: C2 85 / C2 A0, or the tail of a
+		// three-byte space
+		if hi-2 >= lo && p.truth(p.orv(eq(b, 0x85), eq(b, 0xa0))) && p.truth(eq(strAt(s, hi-2), 0xc2)) {
+			hi -= 2
+			continue
+		}
+		if hi-3 >= lo && p.truth(isLead3(strAt(s, hi-3))) {
+			t := p.toTerm(b)
+			if p.truth(p.fromBoolTerm(tt.Cmp(OpUle, tt.BV(0x80, 8), t))) {
+				panic(unsupported("strings.TrimSpace: possible three-byte space at the boundary"))
+			}
+		}
+		break
 	}
 	return strSlice(s, lo, hi)
 }
